@@ -175,6 +175,9 @@ class SchemaMagic(DynEncoderModelMetaclass):
         return ret
 
     def __init__(self, name, bases, dct):
+        # run the metaclass mixin initializers (installs the dynamic JSON encoder)
+        super().__init__(name, bases, dct)
+
         self.__types_checked__ = False  # marker used by check_types (for performance)
 
         # prevent implicit inheritance of class-specific internal/meta stuff:
